@@ -676,6 +676,14 @@ theorem NamesOk.frame' {ns ns' : List (Name × Nat)} {i o : List Name} (x : List
 theorem NamesOk.of_eq {ns ns' : List (Name × Nat)} (own : List Name) (h : ns' = ns) : NamesOk ns own ns' own :=
   h ▸ NamesOk.refl _ _ _ (fun _ h => h)
 
+/-- after `sem_unlink` / `shm_unlink` the name is free again -/
+@[simp] theorem nameSize_filter_ne (ns : List (Name × Nat)) (n : Name) : ResM.nameSize (ns.filter (·.1 ≠ n)) n = none := by
+  simp [ResM.nameSize, List.find?_eq_none]
+
+@[simp] theorem nameSize_filter_ne2 (ns : List (Name × Nat)) (n : Name) :
+    ResM.nameSize (filter (fun x => !decide (x.fst = n)) ns) n = none := by
+  simp [ResM.nameSize, List.find?_eq_none]
+
 theorem semNew_spec (name : Name) (create : Bool) (e : EP) :
     SpecG e.foot [] (semNew name create e) (fun r => optL SemO.foot r.1 ++ r.2.foot) (fun r => optOwn SemO.owned r.1) := by
   intro f s fr h
